@@ -140,6 +140,7 @@ func cmdVerify(args []string) {
 }
 
 type runResult struct {
+	Ignored     int
 	DeadReturns []string
 	Covers     []*Obligation
 	Obls       []*Obligation
@@ -178,6 +179,17 @@ func (V *Verifier) verifyFunctions(fns []*ssa.Function, lemmas []*Lemma, opt sol
 	}
 	for _, l := range lemmas {
 		res.Obls = append(res.Obls, V.encodeLemma(l)...)
+	}
+	if len(V.IgnoreKinds) > 0 {
+		var kept []*Obligation
+		for _, o := range res.Obls {
+			if V.IgnoreKinds[o.Kind] {
+				res.Ignored++
+				continue
+			}
+			kept = append(kept, o)
+		}
+		res.Obls = kept
 	}
 	start := time.Now()
 	V.solveAll(res.Obls, opt)
